@@ -80,30 +80,36 @@ Fresh(e, a) == ens' = e /\ DropIts /\ UNCHANGED nt /\ Note(a, "ok")
 (* ---- constructors ------------------------------------------------------- *)
 (* ConformerEnsemble([elements], n_conformers = n), then both arrays assigned  *)
 (* through the ensemble's setters (a new ensemble holds NaN / 0 rows)          *)
-NewAtoms(k, fc, fq) ==
-  /\ On("grow") /\ ~ens.made /\ Len(fc) <= MaxConf /\ Len(fq) = Len(fc) /\ RowsOK(fc, k) /\ RowsOK(fq, k)
-  /\ Fresh([made |-> TRUE, na |-> k, nb |-> 0,  C |-> fc, Q |-> fq, W |-> Ones(Len(fc)), S |-> NoSrc],
-           [act |-> "newatoms", k |-> k, C |-> fc, Q |-> fq])
-(* ConformerEnsemble(mol, n_conformers = n): n = 0 gives one conformer         *)
-NewMol(m, n, fc, fq) ==
+(* form "none": ConformerEnsemble(n_conformers = n, n_atoms = a)   - a blank atoms                    *)
+(* form "list": ConformerEnsemble([k elements], n_conformers = n, n_atoms = a) - the list decides, a is *)
+(* ignored.  Boundary values matter: no atoms with conformers, atoms without conformers, k = 0 ([])     *)
+NewAtoms(form, k, a, fc, fq) ==
+  LET na == IF form = "none" THEN a ELSE k IN
+  /\ On("grow") /\ ~ens.made /\ form \in {"none", "list"} /\ (form = "none" => k = 0)
+  /\ Len(fc) <= MaxConf /\ Len(fq) = Len(fc) /\ RowsOK(fc, na) /\ RowsOK(fq, na)
+  /\ Fresh([made |-> TRUE, na |-> na, nb |-> 0,  C |-> fc, Q |-> fq, W |-> Ones(Len(fc)), S |-> NoSrc],
+           [act |-> "newatoms", form |-> form, k |-> k, a |-> a, C |-> fc, Q |-> fq])
+(* ConformerEnsemble(mol, n_conformers = n, n_atoms = a): n = 0 gives one conformer, a is ignored *)
+NewMol(m, n, a, fc, fq) ==
   /\ On("grow") /\ ~ens.made /\ Len(fc) = (IF n = 0 THEN 1 ELSE n) /\ Len(fc) <= MaxConf /\ Len(fq) = Len(fc)
   /\ RowsOK(fc, m.na) /\ RowsOK(fq, m.na)
   /\ Fresh([made |-> TRUE, na |-> m.na, nb |-> m.nb,  C |-> fc, Q |-> fq, W |-> Ones(Len(fc)), S |-> NoSrc],
-           [act |-> "newmol", m |-> m, n |-> n, C |-> fc, Q |-> fq])
-(* ConformerEnsemble([mol, ...])                                               *)
-NewList(ms) ==
+           [act |-> "newmol", m |-> m, n |-> n, a |-> a, C |-> fc, Q |-> fq])
+(* ConformerEnsemble([mol, ...], n_conformers = n): the list decides, n is ignored *)
+NewList(ms, n) ==
   /\ ~ens.made /\ Len(ms) \in 1..MaxConf /\ SameNa(ms, ms[1].na)
   /\ Fresh([made |-> TRUE, na |-> ms[1].na, nb |-> ms[1].nb, C |-> [i \in 1..Len(ms) |-> ms[i].g],
             Q |-> [i \in 1..Len(ms) |-> ms[i].q], W |-> Ones(Len(ms)), S |-> NoSrc],
-           [act |-> "newlist", ms |-> ms])
+           [act |-> "newlist", ms |-> ms, n |-> n])
 (* ConformerEnsemble(ens): the new object becomes the ensemble under test, the *)
-(* old one stays alive as its source S; they must not share anything           *)
+(* old one stays alive as its source S; they must not share anything; an        *)
+(* explicit n_conformers = n is ignored, the source decides                     *)
 SrcOf(e) == [made |-> TRUE, C |-> e.C, Q |-> e.Q, W |-> e.W]
-NewCopy ==
+NewCopy(n) ==
   /\ On("copy") /\ ens.made
   /\ IF "CopyLosesWeights" \in Deviations
-       THEN Fresh([ens EXCEPT !.W = Ones(Len(ens.C)), !.S = SrcOf(ens)], [act |-> "newcopy"])
-       ELSE Fresh([ens EXCEPT !.S = SrcOf(ens)], [act |-> "newcopy"])
+       THEN Fresh([ens EXCEPT !.W = Ones(Len(ens.C)), !.S = SrcOf(ens)], [act |-> "newcopy", n |-> n])
+       ELSE Fresh([ens EXCEPT !.S = SrcOf(ens)], [act |-> "newcopy", n |-> n])
 
 (* ---- append / extend ---------------------------------------------------- *)
 NoAtoms == ens.na = 0 /\ N = 0
@@ -300,8 +306,8 @@ Slice(lo, hi) ==                                     \* ens[lo:hi] (0-based, pyt
 (* ---- argument enumeration for the model checker -------------------------- *)
 PoolNa(k)  == SelectSeq(MolPool, LAMBDA m : m.na = k)
 Cyc(s, n)  == [i \in 1..n |-> s[((i - 1) % Len(s)) + 1]]
-FillC(k, n) == [i \in 1..n |-> Cyc(PoolNa(k), n)[i].g]
-FillQ(k, n) == [i \in 1..n |-> Cyc(PoolNa(k), n)[i].q]
+FillC(k, n) == IF PoolNa(k) = <<>> THEN [i \in 1..n |-> [b \in 1..k |-> <<i, 0, b>>]] ELSE [i \in 1..n |-> Cyc(PoolNa(k), n)[i].g]
+FillQ(k, n) == IF PoolNa(k) = <<>> THEN [i \in 1..n |-> [b \in 1..k |-> 125 * i]] ELSE [i \in 1..n |-> Cyc(PoolNa(k), n)[i].q]
 PoolSet    == {MolPool[i] : i \in 1..Len(MolPool)}
 NaSet      == {m.na : m \in PoolSet}
 Lists(n)   == UNION {[1..k -> PoolSet] : k \in 0..n}
@@ -315,11 +321,11 @@ ConfIdx == 1..MaxConf                                      \* constant bounds: T
 Stacks(S) == UNION {[1..k -> S] : k \in 1..MaxConf}
 AtomIdx == 1..(CHOOSE k \in NaSet : \A j \in NaSet : j <= k)
 Next ==
-  \/ NewAtoms(0, <<>>, <<>>)
-  \/ \E k \in NaSet, n \in 0..2 : NewAtoms(k, FillC(k, n), FillQ(k, n))
-  \/ \E m \in PoolSet, n \in {0, 2} : NewMol(m, n, FillC(m.na, IF n = 0 THEN 1 ELSE n), FillQ(m.na, IF n = 0 THEN 1 ELSE n))
-  \/ \E ms \in Lists(3) : NewList(ms)
-  \/ NewCopy
+  \/ \E a \in NaSet \cup {0}, n \in 0..2 : NewAtoms("none", 0, a, FillC(a, n), FillQ(a, n))
+  \/ \E k \in NaSet \cup {0}, n \in 0..2, a \in {0, 3} : NewAtoms("list", k, a, FillC(k, n), FillQ(k, n))
+  \/ \E m \in PoolSet, n \in 0..2, a \in {0, 3} : NewMol(m, n, a, FillC(m.na, IF n = 0 THEN 1 ELSE n), FillQ(m.na, IF n = 0 THEN 1 ELSE n))
+  \/ \E ms \in Lists(3), n \in {0, 2} : NewList(ms, n)
+  \/ \E n \in {0, 1} : NewCopy(n)
   \/ \E m \in PoolSet : AppendC(m)
   \/ \E ms \in Lists(2) : ExtendList(ms)
   \/ ExtendEns(SelfVal, "self")
